@@ -14,6 +14,7 @@ import (
 	"fmt"
 	"math/big"
 	"math/rand"
+	"os"
 	"strings"
 	"sync"
 
@@ -72,7 +73,7 @@ func ioDesc(io circuit.IO) string {
 }
 
 // c05One runs one program on one input pair in both modes.
-func c05One(res *Result, src string, xs, ys string, record *[]stEv, seedv uint64) {
+func c05One(res *Result, src string, xs, ys string, record *[]stEv, seedv uint64, wire ...*[]swEv) {
 	circ, err := compileMPCL(src, nil)
 	if err != nil {
 		res.Class = "rejected"
@@ -118,7 +119,7 @@ func c05One(res *Result, src string, xs, ys string, record *[]stEv, seedv uint64
 			*record = append(*record, ev)
 		}
 	}
-	sr := runStream(src, []string{xs}, []string{ys}, sessOpts{ot: "co", randSeed: seedv, corruptAt: -1})
+	sr := runStream(src, []string{xs}, []string{ys}, sessOpts{ot: "co", randSeed: seedv, corruptAt: -1, record: len(wire) > 0 && wire[0] != nil})
 	if record != nil {
 		ssa.VerifStreamHook = nil
 		c05HookMu.Unlock()
@@ -146,6 +147,16 @@ func c05One(res *Result, src string, xs, ys string, record *[]stEv, seedv uint64
 		res.viol("types", "output types differ: streaming garbler %s, evaluator %s, whole-circuit %s", ioDesc(sr.gIO), ioDesc(sr.eIO), ioDesc(circ.Outputs))
 	}
 	res.Class = "compared"
+	if len(wire) > 0 && wire[0] != nil {
+		evs, err := parseStreamWire(sr, 40000)
+		if err != nil {
+			// the stream is not framed the way specs/StreamWire.tla says: the model is out of date (or the
+			// harness is wrong); by itself not a violation of the property
+			res.drift("streaming transcript cannot be parsed into the messages of StreamWire.tla: %v", err)
+		} else {
+			*wire[0] = evs
+		}
+	}
 }
 
 // a program whose live wire ids exceed 65535, so that both wire-id encodings are used
@@ -276,6 +287,18 @@ func c05Main(args []string) error {
 	if len(args) >= 3 && args[0] == "abstract" {
 		return c05Abstract(args[1:])
 	}
+	if len(args) == 4 && args[0] == "one" {
+		// ad-hoc / replay: vh c05 one <source file> <x> <y>
+		src, err := os.ReadFile(args[1])
+		if err != nil {
+			return err
+		}
+		res := &Result{Case: 0, Nontrivial: true}
+		c05One(res, string(src), args[2], args[3], nil, uint64(seed()))
+		b, _ := json.Marshal(res)
+		fmt.Println(string(b))
+		return nil
+	}
 	if len(args) < 4 || args[0] != "run" {
 		return fmt.Errorf("usage: vh c05 run trace results nprogs")
 	}
@@ -291,6 +314,14 @@ func c05Main(args []string) error {
 	defer out.close()
 	nprogs := 40
 	fmt.Sscan(args[3], &nprogs)
+	var wtr *ndWriter
+	if len(args) > 4 {
+		if wtr, err = newND(args[4]); err != nil {
+			return err
+		}
+		defer wtr.close()
+	}
+	wtraced := 0
 	rng := rand.New(rand.NewSource(seed()*67867967 + 5))
 	idx := 0
 	traced := 0
@@ -323,9 +354,30 @@ func c05Main(args []string) error {
 			if k == 0 && traced < 60 {
 				recp = &rec
 			}
-			c05One(res, src, pgInput(rng, a), pgInput(rng, b), recp, uint64(seed())<<32+uint64(idx))
+			var wev []swEv
+			var wevp *[]swEv
+			if wtr != nil && k == 0 && wtraced < 80 {
+				wevp = &wev
+			}
+			c05One(res, src, pgInput(rng, a), pgInput(rng, b), recp, uint64(seed())<<32+uint64(idx), wevp)
 			if res.Class == "compared" {
 				res.Class = class
+			}
+			if len(wev) > 0 {
+				if wtraced > 0 {
+					wev = append([]swEv{{Ev: "reset"}}, wev...)
+				}
+				for _, e := range wev {
+					// TLC's JSON reader has no null
+					if e.G == nil {
+						e.G = [][]int{}
+					}
+					if e.IDs == nil {
+						e.IDs = []int{}
+					}
+					wtr.put(e)
+				}
+				wtraced++
 			}
 			if recp != nil && res.Class != "rejected" {
 				emit(rec)
@@ -355,6 +407,11 @@ func c05Main(args []string) error {
 	}
 	for i, t := range pgTemplates {
 		run(t, tmplArgs[i][0], tmplArgs[i][1], 3, "template")
+	}
+	u8 := pgScalar("a", 8, false)
+	cacheArgs := [][2]pgVar{{pgArray("a", 8), u8}, {pgArray("a", 8), u8}, {u16, u16}}
+	for i, t := range pgCacheTemplates {
+		run(t, cacheArgs[i][0], cacheArgs[i][1], 6, "cache-template")
 	}
 	for i := 0; i < nprogs; i++ {
 		p := genProgram(rng, 4+rng.Intn(8), i%5 == 4)
